@@ -25,7 +25,8 @@ ANCHORS = ['pycaption.srt:SRTWriter.write', 'pycaption.webvtt:WebVTTWriter.write
 REQUIRE = {'writes_in_histories': 300, 'writes_on_reused_writer': 100, 'writes_that_raised': 10,
            'outputs_compared_with_pristine_child': 300, 'child_processes': 8, 'faults_injected': 100,
            'input_snapshots_compared': 400, 'sets_with_unclosed_span': 10,
-           'reused_writer_after_set_with_language_layout': 5}
+           'reused_writer_after_set_with_language_layout': 5,
+           'suite_writes_observed': 50}
 SHARDS = {'quick': 8, 'thorough': 16}
 TIME_LIMIT = {'quick': 400, 'thorough': 3600}
 ALL_WRITERS = W.WRITERS + ['SCCWriter']
@@ -119,6 +120,8 @@ def gen_probe(rng, tag, writer):
 
 def cases(ctx):
     rng = ctx.rng('c09')
+    if ctx.shard == 0:
+        yield {'kind': 'suite'}
     for k, writer in enumerate(ALL_WRITERS):
         for rep in range(2 if ctx.tier == 'quick' else 20):
             if ctx.mine(k * 31 + rep):
@@ -135,7 +138,7 @@ def cases(ctx):
 
 
 def nontrivial(case):
-    if case['kind'] == 'faults':
+    if case['kind'] in ('faults', 'suite'):
         return True
     seen = set()
     for op in case['ops']:
@@ -157,6 +160,13 @@ def check(case, ctx):
     fails = []
     if case['kind'] == 'faults':
         return _check_faults(case, ctx)
+    if case['kind'] == 'suite':
+        from vf import suite
+        data = suite.run_suite()
+        ctx.count('suite_writes_observed', data['counts'].get('write_observed', 0))
+        ctx.note('suite_summary', data.get('summary'))
+        return [{'what': v['violation'], 'test': v.get('test')} for v in data['violations']
+                if v.get('property') == 'C09'][:3]
     sets = [dump.mk_caption_set(s) for s in case['sets']]
     for s in case['sets']:
         if s.get('unclosed'):
